@@ -75,7 +75,7 @@ def main():
     hook_commits = [c.split()[0] for c in commits if c.split(" ", 1)[1].startswith("verif hook")]
     m = {
         "version": 1,
-        "setup_cmd": "cd harness && GOFLAGS=-mod=mod GOPROXY=off go test -c -tags verif -o ../.bin/props.test ./props",
+        "setup_cmd": "mkdir -p .bin && cd harness && GOFLAGS=-mod=mod GOPROXY=off go test -c -tags verif -o ../.bin/props.test ./props",
         "hooks": {"guard": "verif", "enable": "-tags verif", "baseline_off_cmd": "cd /repo && go test -mod=mod -vet=off -count=1 ./...", "source_commits": hook_commits, "add_only": True},
         "engines": [
             {"name": ENGINE, "path": "harness", "serves_properties": sorted(CHECKS), "kind_free_text": "one Go test binary (pgregory.net/rapid v1.3.0, replace => /repo) whose cases run in re-exec'd sandbox worker processes (watchdog, rss ceiling, hang-site sampling, typed observation sink); python driver ./check builds, shards and merges evidence"},
